@@ -165,6 +165,23 @@ func (g *cityGen) twinRingOps(cw bool) []op {
 	}
 }
 
+// twinRingEnds returns the two end points (first vertex and its twin) of every
+// ring under an area that is closed by position only.
+func (g *cityGen) twinRingEnds() []b6.FeatureID {
+	var out []b6.FeatureID
+	for _, pid := range g.pathsUsedByAreas() {
+		p := g.specs[pid].Path
+		if len(p) < 4 || p[0].Point < 0 || p[len(p)-1].Point < 0 || p[0].Point == p[len(p)-1].Point {
+			continue
+		}
+		a, b := g.specs[pointID(p[0].Point)], g.specs[pointID(p[len(p)-1].Point)]
+		if a != nil && b != nil && a.Lat == b.Lat && a.Lng == b.Lng {
+			out = append(out, a.ID, b.ID)
+		}
+	}
+	return out
+}
+
 // pathsUsedByAreas returns closed paths that some area refers to.
 func (g *cityGen) pathsUsedByAreas() []b6.FeatureID {
 	seen := map[b6.FeatureID]bool{}
